@@ -83,6 +83,8 @@ struct Delivery {
     kind: &'static str,
     /// the sequence number a noise packet pretends to answer
     seq: u16,
+    /// ground truth: the MPLS members of the extension structure carried (None = no structure)
+    ext: Option<Vec<[u32; 4]>>,
 }
 
 #[derive(Debug, Clone)]
@@ -128,6 +130,8 @@ pub struct World {
     pub aborted: bool,
     prev_send_inuse: bool,
     pub fired: Vec<Value>,
+    next_ext: Option<Vec<[u32; 4]>>,
+    cur_ext: Option<Vec<[u32; 4]>>,
 }
 
 thread_local! {
@@ -185,6 +189,8 @@ impl World {
             aborted: false,
             prev_send_inuse: false,
             fired: Vec::new(),
+            next_ext: None,
+            cur_ext: None,
         }
     }
 
@@ -417,8 +423,15 @@ impl World {
             let quoted = self.quote(&datagram, &path, usize::from(ttl), &hop);
             let from = addr_of(hop.addr, self.sc.fam);
             let bytes = self.icmp_error(from, true, &quoted, &hop);
+            let xt = if hop.quote == 2 || hop.quote == 3 {
+                Some(hop.mpls.iter().map(|m| [m.label, u32::from(m.exp), u32::from(m.bos), u32::from(m.ttl)]).collect::<Vec<_>>())
+            } else {
+                None
+            };
+            self.next_ext.clone_from(&xt);
             self.enqueue(now + delay, bytes.clone(), from, Origin::Resp(k), false, "te", 0);
             if dup >= 0 {
+                self.next_ext = xt;
                 self.enqueue(now + dup as u64, bytes, from, Origin::Resp(k), false, "te", 0);
             }
         }
@@ -550,6 +563,7 @@ impl World {
             tgt,
             kind,
             seq,
+            ext: self.next_ext.take(),
         };
         let pos = self
             .queue
@@ -794,6 +808,7 @@ impl World {
         let d = self.queue.remove(0);
         let n = d.bytes.len().min(buf.len());
         buf[..n].copy_from_slice(&d.bytes[..n]);
+        self.cur_ext.clone_from(&d.ext);
         self.log_delivery(&d.origin, code_of(d.from), d.tgt, d.kind, d.seq);
         Ok((n, d.from))
     }
@@ -818,8 +833,9 @@ impl World {
         };
         *self.counters.delivered.entry(label.to_string()).or_default() += 1;
         self.force_st = true;
+        let xt = self.cur_ext.take();
         self.ev(json!({"e":"dlv","t":t,"label":label,"k":k,"seq":seq,"ttl":ttl,"round":round,
-            "from":from,"tgt":tgt,"kind":kind}));
+            "from":from,"tgt":tgt,"kind":kind,"xt_has":xt.is_some(),"xt":xt.unwrap_or_default()}));
     }
 
     pub fn observe_state(&mut self, phase: &str, p: &trippy_core::verif::StateProjection) {
